@@ -262,7 +262,7 @@ pub fn case(t: &mut Tape, ctx: &CaseCtx) -> CaseResult {
 
 pub fn run(mut run: Run) -> i32 {
     run.replay_committed(&case);
-    run.random("multi-app histories with restarts", &[], run.n(80_000, 1_500_000), 700, &case);
+    run.random("multi-app histories with restarts", &[], run.n(200_000, 2_000_000), 700, &case);
     run.finish(
         RULE,
         500,
